@@ -537,6 +537,7 @@ def run(model, rep, tier):
     from rules.c05 import check_validators
     check_validators(model, rep, "R-04.8")
     rep.assume("AttributeError/TypeError from None-dereference or wrong attribute are outside the implicit-raise table (pyright on the pinned tree reports none in the parse zone)")
+    rep.assume("decimal tokens are shorter than sys.get_int_max_str_digits() (4300): int(x) under x.isdecimal() is discharged on that assumption; likewise str.zfill widths fit the interpreter's size type")
     rep.assume("third-party idna / hashlib / hmac behave as documented; user callbacks (callable keyring, GSSAPI context) are outside the analysed program")
     n_ot = 0
     for ft_ in sorted(model.all_functions(), key=lambda g: g.qualname):
